@@ -246,6 +246,46 @@ def check_lindiv(built, tag, sf, sg, timeout):
     return [ob.unknown(why, "z3-int", res.seconds)]
 
 
+def divleg_drivers(tag):
+    """x / y (encoded) and the Legendre symbol, for a closed-case corpus (the end-to-end statements of the binary GCD)"""
+    f = F.BYTAG[tag]
+    ty, n, L = f.rust, f.n, f.enc_len
+    return [Driver("drv_%s_divenc" % tag, [("x", "in", 1, L), ("y", "in", 1, L), ("out", "out", 1, L)],
+                   "        let a = <%s>::decode_reduce(&x[..]); let b = <%s>::decode_reduce(&y[..]);\n        *out = (a / b).encode();" % (ty, ty)),
+            Driver("drv_%s_legenc" % tag, [("x", "in", 1, L), ("st", "out", 4, 1)],
+                   "        let a = <%s>::decode_reduce(&x[..]);\n        st[0] = a.legendre() as u32;" % ty)]
+
+
+def divleg_corpus(built, tag, tier):
+    f = F.BYTAG[tag]
+    q, L = f.q, f.enc_len
+    ob = Obligation("default:%s.div_legendre:corpus" % tag, "ground", [f.rust + "::set_div", f.rust + "::legendre"],
+                    "closed cases: divisors and operands -k and k for k in 1..2000, random k below 2^40, powers of two and their negatives, "
+                    "values sharing their top bits with the modulus, random values",
+                    "native run: (x / y) * y = x (y != 0), x / 0 = 0; legendre(x) = 0, 1, -1 as Euler's criterion says")
+    t0 = time.time()
+    r = rng("divleg", tag)
+    ys = [0, 1, 2, q - 1, q - 2] + [q - k for k in range(1, 2001)] + list(range(3, 400)) + \
+        [q - r.getrandbits(40) for _ in range(3000 if tier == "quick" else 20000)] + \
+        [(1 << k) % q for k in range(1, 64 * f.n, 7)] + [q - (1 << k) % q for k in range(1, 64 * f.n, 7)] + \
+        [r.randrange(q) for _ in range(300)]
+    for i, y in enumerate(ys):
+        y %= q
+        x = (r.randrange(q) if i % 3 else 1)
+        nat = built.native("drv_%s_divenc" % tag, {"x": list(x.to_bytes(L, "little")), "y": list(y.to_bytes(L, "little"))})
+        z = int.from_bytes(bytes(nat["out"]), "little")
+        want = (x * pow(y, -1, q)) % q if y else 0
+        if z != want:
+            return [ob.fail({"key": "%s.div" % tag, "inputs": {"x": hex(x), "y": hex(y)}, "native": hex(z), "expected": hex(want),
+                             "found_by": "native replay of closed cases"}, "native", time.time() - t0, 0)]
+        lg = built.native("drv_%s_legenc" % tag, {"x": list(y.to_bytes(L, "little"))})["st"][0]
+        e = 0 if y == 0 else (1 if pow(y, (q - 1) // 2, q) == 1 else 0xFFFFFFFF)
+        if lg != e:
+            return [ob.fail({"key": "%s.legendre" % tag, "inputs": {"x": hex(y)}, "native": hex(lg), "expected": hex(e),
+                             "found_by": "native replay of closed cases"}, "native", time.time() - t0, 0)]
+    return [ob.ok("native replay x%d" % len(ys), time.time() - t0, 0, syntactic=True)]
+
+
 GROUPS = ("lin", "batch", "sqrt")
 
 
@@ -261,6 +301,7 @@ def run(tier, only=None):
     ds = []
     for t in tags:
         ds += lin_drivers(t)
+        ds += divleg_drivers(t)
     merr = None
     mir = None
     if "batch" in groups:
@@ -330,6 +371,8 @@ def run(tier, only=None):
             obs.append(o)
             if "MachineryError" in str(val):
                 merr = str(val)[-600:]
+    for t in tags:
+        obs.extend(divleg_corpus(built, t, tier))
     if umod:
         ob = Obligation("default:user_modint256_q5mod8.sqrt:corpus", "ground", ["backend::w64::modint::ModInt256::set_sqrt (q = 5 mod 8: make_qm5d8, Atkin)"],
                         "closed cases: a user-defined 256-bit prime q = 5 mod 8 (limbs 2 and 3 differ in their low three bits); 0, small squares, random squares and non-squares",
